@@ -373,6 +373,10 @@ func init() {
 	add("C07", ruleR20_3, ruleR18_5, ruleR06_2)
 	add("C15", ruleR05_1)
 	add("C17", ruleR18_2, ruleR18_3)
+	add("C06", ruleR15_8)
+	add("C15", ruleR15_8)
+	add("C12", ruleR06_1full) // "all log invariants hold" under overlapping requests: the numbering of the accepted operations
+	add("C20", ruleR12_3)     // a realtime client's overlapping push-pulls are told apart by the server's per-datatype lock alone
 	for _, id := range []string{"C09", "C13", "C10", "C02", "C19"} {
 		add(id, ruleR09_17)
 	}
